@@ -1,45 +1,102 @@
-"""Which rules decide which property."""
+"""Which rules decide which property (see DESIGN.md section 4)."""
 
+from lcmsa import rules_bellman as bel
+from lcmsa import rules_kernel as ker
 from lcmsa import rules_per as per
 from lcmsa import rules_qa as qa
 
 TRUSTED_COMMON = [
     "CPython ast module (parsing)",
-    "semantics of jax.vmap / jax.ops.segment_max / jax.random as summarised in DESIGN.md",
+    "semantics of jax.vmap / jax.ops.segment_max / jax.random / jnp reductions as summarised in DESIGN.md",
     "dags.concatenate_functions (argument order alphabetical; strict signatures unless enforce_signature=False)",
     "pandas DataFrame.query evaluates the boolean formula it is given",
+    "the analyser's own term builder and normaliser (lcmsa/core.py, lcmsa/alg.py), exercised by the self-test variants",
 ]
 ASSUMPTIONS_COMMON = [
-    "the analysed tree is /repo/src/lcm as found on disk at the time of the run",
-    "structural clauses only: no claim about floating-point values",
+    "the analysed tree is <repo>/src/lcm as found on disk at the time of the run; nothing is imported or executed",
+    "structural clauses only: a necessary condition of the property is decided, never floating-point values",
+    "reference forms (lcmsa/reference/*.py) were reviewed by hand at the commit named in their header",
 ]
 
 PROPERTIES = {}
 
 
 def prop(pid, rules, explanation, **kw):
-    PROPERTIES[pid] = {"rules": rules, "explanation": explanation, **kw}
+    PROPERTIES[pid] = {"rules": list(rules), "explanation": explanation, **kw}
 
 
-prop("C05", [qa.qa_sites, qa.qa_order, qa.qa_value_axes, qa.qa_siblings],
-     "R2 query algebra: canonical order partition/precedences, axis_names, sibling selections")
+COVER_ONLY = {"R2.QA1": lambda o: o.key.startswith("QA1:cover")}
 
-prop("C01", [per.per_rules, qa.qa_partition], "R3 period offsets; R2 partition",
-     filter={"R2.QA1": lambda o: o.key.startswith("QA1:cover")})
-
-prop("C06", [per.per_rules], "R3 period offsets (solver and simulator agree)")
-
-from lcmsa import rules_kernel as ker  # noqa: E402
-
-prop("C18", [ker.ker_argmax, ker.ker_discrete], "kernel agreement: arg-max primitives and discrete reduction")
-prop("C20", [ker.ker_logsumexp], "kernel agreement: log-sum-exp forms")
-prop("C15", [ker.ker_interp], "kernel agreement: interpolation kernel and coordinates")
-prop("C02", [ker.ker_argmax, ker.ker_simulate], "kernel agreement")
-
-from lcmsa import rules_bellman as bel  # noqa: E402
-
-PROPERTIES["C01"]["rules"] += [bel.bellman_form, bel.masked_reduction, bel.twins, ker.ker_discrete]
-prop("C11", [bel.bellman_form, per.per_rules], "discounting structure")
-PROPERTIES["C06"]["rules"] += [bel.twins, bel.masked_reduction]
-PROPERTIES["C02"]["rules"] += [bel.masked_reduction, bel.twins]
-prop("C14", [ker.ker_interp], "kernel")
+prop("C01", [per.per_rules, qa.qa_partition, bel.bellman_form, bel.masked_reduction, bel.twins,
+             ker.ker_discrete, ker.ker_modeldags, ker.ker_weights, qa.qa_siblings, qa.qa_value_axes],
+     "Backward-induction wiring by period offsets (R3), Bellman form u + beta*E[V] with a single discount site and "
+     "none in the last period (R13.ALG1), feasibility-masked max with -inf neutral element (ALG2), max over exactly "
+     "the dense choice axes then segments (KER + R2.QA3/QA4), partition of the variables into mapped families (QA1 "
+     "cover), solver/simulator twins and jit arms (R14). Not decided: numerical equality with the mathematical maximum.",
+     filter=COVER_ONLY)
+prop("C02", [ker.ker_argmax, ker.ker_simulate, ker.ker_policy, bel.masked_reduction, bel.twins, qa.qa_siblings],
+     "Arg-max primitives, index->grid-value retrieval and the discrete policy calculator agree with their reference "
+     "forms (KER); policy = masked arg-max twin of the value function built from the same u_and_f (ALG2, R14); axes "
+     "of the arg-max == dense grids of the data space (R2.QA3). Not decided: attainment up to floating point.")
+prop("C03", [ker.ker_nextstate, ker.ker_nextstate_dag, ker.ker_random, ker.ker_routing],
+     "Law of motion: sampler closure, next-state DAG assembly (samplers override placeholders), weight lookup in "
+     "signature order agree with their reference forms (KER).")
+prop("C04", [ker.ker_random, ker.ker_nextstate],
+     "Key handling kernels: split per period (first key carried on), one key per stochastic next function, one "
+     "sub-key per agent, choice(p=row, a=labels) (KER). Not decided: frequencies (contract of jax.random.choice).")
+prop("C05", [qa.qa_sites, qa.qa_order, qa.qa_value_axes, qa.qa_siblings, ker.ker_statespace, ker.ker_util,
+             ker.ker_dispatchers, bel.twins, per.per_rules],
+     "Axis layout: canonical order is a partition with the required precedences, applied to the table and to grids "
+     "(R2.QA2); axis_names == dense state axes, restricted axis first (QA4, AX3); sibling selections agree (QA3); "
+     "row-major feasible combinations and dispatcher axis order agree with reference forms (KER); chronological "
+     "list (R3.PER5). The QA part is exhaustive over all variable classes.",
+     filter={"R3.PER": lambda o: o.key.startswith("PER5") or o.key.startswith("PER1:solve")})
+prop("C06", [per.per_rules, bel.twins, bel.masked_reduction],
+     "Solver and simulator use V_{t+1} with equal offsets and the same indexer/grid lists (R3), the same u_and_f "
+     "object for value and policy, twin spacemap calls (R14, ALG2); solve_and_simulate == simulate with the model's "
+     "solve bound (PER5).")
+prop("C07", [ker.ker_template, ker.ker_routing, bel.bellman_form],
+     "Template: free arguments = signature minus variables/functions/_period; shock shape = dependency sizes in "
+     "signature order + own size; routing by own name params[name]; weights indexed in signature order (KER); beta "
+     "read once (ALG1).",
+     filter={"R13.ALG1": lambda o: "discount" in o.key or "beta" in o.key})
+prop("C08", [ker.ker_simulate],
+     "Agent independence: segment ids are the agent coordinate of the (agent x sparse-choice) rows; row-major "
+     "product of sparse choices (KER).")
+prop("C10", [ker.ker_dispatchers, ker.ker_wrappers, ker.ker_functools, qa.qa_order, ker.ker_util],
+     "Renaming/permutation clauses: positions derived from signatures, keyword binding by name (KER dispatchers, "
+     "wrappers); axis order depends only on variable class and declaration order (R2.QA2).")
+prop("C11", [bel.bellman_form, per.per_rules],
+     "Discounting structure: exactly one beta (degree 1) per period step, none in the last period, expectation is "
+     "a plain weighted sum (ALG1); last-period flag is t == n_periods-1 (PER4). Not decided: the algebraic laws "
+     "themselves.",
+     filter={"R3.PER": lambda o: o.key.startswith("PER4") or "u_and_f" in o.key or "space_info" in o.key})
+prop("C12", [ker.ker_gridclasses, ker.ker_modelvalidation, ker.ker_template, qa.qa_partition,
+             qa.qa_indexer_axes_are_labels, qa.qa_stochastic_sets],
+     "Forward direction: every documented rule has its guard with the documented exception class, run from the "
+     "constructors / template creation (KER validators, QA5). Converse (necessary conditions): the solve space is a "
+     "partition (QA1), indexer axes have label translators (QA6). Known findings D6.")
+prop("C13", [ker.ker_frame, ker.ker_panel],
+     "Panel: period-major concatenation, _period = repeat(arange(P), N), MultiIndex.from_product([P, N]) with level "
+     "names, targets mapped row-wise over all non-params arguments (KER).")
+prop("C14", [ker.ker_funcrep, ker.ker_funcrep_guard, ker.ker_interp, ker.ker_mapcoord],
+     "Function representation building blocks (label translator, lookup, coordinate finder, interpolator, trailing "
+     "axes guard) and the interpolation kernel agree with their reference forms (KER).")
+prop("C15", [ker.ker_interp, ker.ker_mapcoord],
+     "Interpolation kernel: lower index clipped to [0,size-2], weights (1-w, w), sum over corners; linear and log "
+     "coordinates (KER, polynomial normal form).")
+prop("C16", [ker.ker_grids, ker.ker_gridclasses],
+     "Grid validation guards (types, finiteness, positivity for log grids, n_points >= 1, start < stop; discrete "
+     "codes 0..n-1 in declaration order) and materialisation wrappers (KER).")
+prop("C17", [ker.ker_statespace, ker.ker_space, ker.ker_masks, ker.ker_util, qa.qa_siblings, qa.qa_order],
+     "State-choice space: filter mask, row-major masked mesh, ranks/-1 fill/segments agree with reference forms "
+     "(KER); restricted = ancestors of filters (KER util); mask axes == combination axes, n_sparse_states (QA3); "
+     "states before choices (QA2).")
+prop("C18", [ker.ker_argmax, ker.ker_discrete, ker.ker_policy],
+     "Arg-max primitives and the max/segment-max reduction agree with their reference forms (KER). Not decided: "
+     "tie positions, attainment under XLA fusion (advisory in DESIGN.md).")
+prop("C19", [ker.ker_dispatchers, ker.ker_wrappers, ker.ker_functools],
+     "Dispatchers (reverse-order iterated vmap, joint vmap, nesting by put_dense_first, duplicate/overlap guards) and "
+     "keyword/positional wrappers with their guards agree with reference forms (KER).")
+prop("C20", [ker.ker_logsumexp],
+     "Max-shifted segment log-sum-exp and the scale in/out structure agree with their reference forms (KER).")
